@@ -59,13 +59,11 @@ def toInt? (x : Dbl) : Option Int :=
       some (if x.neg then -((mant / 2 ^ k : Nat) : Int) else ((mant / 2 ^ k : Nat) : Int))
     else none
 
+/-- the normal double `±a` for `0 < a < 2^53`: with `n = ⌊log2 a⌋`, exponent field `n + 1023`, fraction `a·2^(52-n) - 2^52` -/
+def ofNatPos (neg : Bool) (a : Nat) : Dbl := ⟨neg, a.log2 + 1023, a * 2 ^ (52 - a.log2) - 2 ^ 52⟩
+
 /-- `(double)v` for an integer `|v| < 2^53` (exact) -/
-def ofInt (v : Int) : Dbl :=
-  if v = 0 then zero
-  else
-    let a := v.natAbs
-    let n := a.log2                              -- 2^n ≤ a < 2^(n+1)
-    ⟨decide (v < 0), n + 1023, a * 2 ^ (52 - n) - 2 ^ 52⟩
+def ofInt (v : Int) : Dbl := if v = 0 then zero else ofNatPos (decide (v < 0)) v.natAbs
 
 /-- bit pattern ↔ fields (used by the driver and by the binary codec) -/
 def ofBits (b : Nat) : Dbl := ⟨decide (b / 2 ^ 63 % 2 = 1), b / 2 ^ 52 % 2048, b % 2 ^ 52⟩
